@@ -13,6 +13,7 @@ from vlib import log
 ASSUME = [
     "only soundness (tool passed => SpecPass) is the property; spurious failures of the tool (e.g. a slow echo under load) are counted, not reported",
     "the stream is what a line-echo subprocess (cat) returns for the session's inputs; step timeout 100-150 ms",
+    "timing sessions: a shell echo loop holds a marked line back for 0.7 s; default timeout 100-150 ms, a step's own long timeout 2.2 s; a false pass in a timing session is re-run alone three times and reported only if it repeats (an overloaded machine can stretch the tool's timeout)",
     "sessions whose patterns can yield several candidates for one line are outside the judged class (the tool hands one candidate to a guard)",
     "weakest reading of a step's window: some prefix of the available lines satisfies all expected outputs and matches no forbidden one",
 ]
@@ -32,7 +33,7 @@ def run(pid, tier, seed, replay):
     else:
         rnd = random.Random(seed)
         picked = []
-        for cfg, nq, nt in (("MC_Expect.cfg", 2500, None), ("MC_Expect_2step.cfg", 600, 30000)):
+        for cfg, nq, nt in (("MC_Expect.cfg", 2500, None), ("MC_Expect_2step.cfg", 600, 30000), ("MC_Expect_timeouts.cfg", 250, None)):
             d = vlib.fresh_dir(pid, "mc_" + cfg[:-4])
             r = vlib.tlc_ok(d, "MC_Expect.tla", cfg, workers=1, timeout=3000, heap="8g")
             gen += r["generated"]
@@ -53,6 +54,20 @@ def run(pid, tier, seed, replay):
     jd = vlib.fresh_dir(pid, "judge")
     bad, stats, t = vlib.judge_cases(jd, "Trace_Expect.tla", "Trace_Expect.cfg", out)
     for b in bad:
+        if b.get("c19") and '"slow"' in b["case"]["raw"] and not replay:
+            # timing-sensitive: re-run alone; report only what repeats
+            again = 0
+            for k in range(3):
+                one = os.path.join(wd, "retry_%d_%d.ndjson" % (b["case"]["id"], k))
+                open(one, "w").write(b["case"]["raw"] + "\n")
+                o2 = one + ".out"
+                vlib.run([drv, "run", one, o2, "150", "1"], timeout=600)
+                jd2 = vlib.fresh_dir(pid, "judge_retry_%d_%d" % (b["case"]["id"], k))
+                bad2, _, _ = vlib.judge_cases(jd2, "Trace_Expect.tla", "Trace_Expect.cfg", o2)
+                again += 1 if any(x.get("c19") for x in bad2) else 0
+            if again == 0:
+                log("  (a false pass in a timing session did not repeat: ignored) %s" % b["case"]["raw"][:200])
+                continue
         if b.get("c19"):
             c = b["case"]
             rep.reject("%s on %s" % (",".join(b["c19"]), c["raw"][:500]), b.get("sigs", []),
